@@ -119,7 +119,7 @@ theorem sync_inv2 (db : DB) (inv : DiskInv db) (i2 : Inv2 db) (hs : SizeOK db) :
     have : sync db = db := by unfold sync; simp [inv.nv, hp]
     rw [this]; exact i2
   | false =>
-    obtain ⟨L, hL, invL, absL, _, _, _, _, _, b1, b2, b3, b4, b5, b6⟩ := sync_logWritten db inv hp hs.1
+    obtain ⟨L, hL, invL, absL, _, _, _, _, _, b1, b2, b3, b4, b5, b6, _⟩ := sync_logWritten db inv hp hs.1
     have i2L : Inv2 L := by
       constructor
       · unfold idxFile; rw [b1, b4, b5]; exact i2.free
